@@ -940,12 +940,18 @@ def _enum_worker(arg):
             n = len(event_atoms(ev))
             nontriv = bool(set(p) & set("$#}*'")) or delta != 0
             cnt = 0
+            seen_msg = {}
             for ch in compositions(n):
                 case = {"retries": 1, "transport": "tcp", "send_limit": None, "ops": [{"op": "recv", "events": [ev], "chunks": ch}]}
                 msg, obs, feats = evaluate(case)
                 cnt += 1
                 if msg:
-                    kid = classify(case, msg)
+                    # the observation does not depend on the chunking: classify once per (payload, checksum)
+                    if seen_msg.get("msg") == msg:
+                        kid = seen_msg["kid"]
+                    else:
+                        kid = classify(case, msg)
+                        seen_msg = {"msg": msg, "kid": kid}
                     if kid and kid in open_ids:
                         stats.known[kid] += 1
                     elif len(fails) < 3:
@@ -974,13 +980,14 @@ def selftest():
 def run(ctx):
     selftest()
     maxlen = ctx.scale(8, 16)
-    ctx.pmap(_enum_worker, [(i, 16, 2) for i in range(16)])
+    ctx.pmap(_enum_worker, [(i, 16, 2) for i in range(16)], workers=ctx.scale(8, 16))
     ctx.exhaustive = True
     ctx.extra["exhaustive_domain"] = (
         "every chunking of the frame of every payload of length <= 2 over %r, good and corrupted checksum, "
         "through TCP.recv_thread; histories and longer payloads are sampled" % ENUM_ALPHABET
     )
-    nframes = ctx.scale(2000, 200000)
-    nhist = ctx.scale(1600, 160000)
+    nframes = ctx.scale(1600, 200000)
+    nhist = ctx.scale(1200, 160000)
     maxops = ctx.scale(8, 30)
-    ctx.pmap(_hyp_worker, [(subseed(ctx.seed, PID, w), nframes // 16, nhist // 16, maxlen, maxops) for w in range(16)])
+    # 16 shards on 8 processes in the quick tier: on a loaded machine more processes only add contention
+    ctx.pmap(_hyp_worker, [(subseed(ctx.seed, PID, w), nframes // 16, nhist // 16, maxlen, maxops) for w in range(16)], workers=ctx.scale(8, 16))
